@@ -1,6 +1,9 @@
 package vanguard
 
 import (
+	"errors"
+	"net/http"
+
 	"connectrpc.com/connect"
 )
 
@@ -166,4 +169,32 @@ func hPercentDecode() {
 		verifReach("malformed")
 		verifAssert(err != nil, "malformed escape rejected")
 	}
+}
+
+// hGrpcEndRoundTrip: an error end written as gRPC trailers and parsed back keeps code and message;
+// status keys are removed from the trailer map handed on as application metadata.
+func hGrpcEndRoundTrip() {
+	code := verifNondetUint32("code")
+	verifAssume(code >= 1 && code <= 20)
+	max := 3
+	if verifTier() == 1 {
+		max = 5
+	}
+	msg := nondetBytesUpTo("msg", max)
+	end := &responseEnd{err: connect.NewWireError(connect.Code(code), errors.New(string(msg)))}
+	tr := http.Header{}
+	grpcWriteEndToTrailers(end, tr)
+	verifObsStr("grpc-status", tr.Get("Grpc-Status"))
+	verifObsStr("grpc-message", tr.Get("Grpc-Message"))
+	got := grpcExtractErrorFromTrailer(tr)
+	verifReach("error-end")
+	verifAssert(got != nil, "error outcome stays an error")
+	if got == nil {
+		return
+	}
+	verifAssert(uint32(got.Code()) == code, "error code survives gRPC trailers")
+	verifAssert(got.Message() == string(msg), "error message survives gRPC trailers")
+	_, hasStatus := tr["Grpc-Status"]
+	_, hasMsg := tr["Grpc-Message"]
+	verifAssert(!hasStatus && !hasMsg, "status keys removed from application trailers")
 }
